@@ -16,6 +16,7 @@ mod scene;
 mod c10;
 mod c14;
 mod c11;
+mod c13;
 
 fn main() {
     let args: Vec<String> = std::env::args().collect();
@@ -44,6 +45,7 @@ fn main() {
         "C10" => c10::main(tier, seed, n),
         "C14" => c14::main(tier, seed, n),
         "C11" => c11::main(tier, seed, n),
+        "C13" => c13::main(tier, seed, n),
         p => { eprintln!("unknown property {}", p); std::process::exit(2); }
     }
 }
